@@ -199,7 +199,7 @@ v('c18-epsilon', ['C18'], RX, "            BaseRegLan::Epsilon => false,\n      
 # ---- C16
 v('c16-union-any', ['C16'], RX, "s.expr.concat_or_atomic() && list.iter().all(|&x| sub_language(x, s))", "s.expr.concat_or_atomic() && list.iter().any(|&x| sub_language(x, s))", 'C16.R1/sub_language/(Union')
 v('c16-compl-dir', ['C16'], RX, "(Complement(r1), Complement(s2)) => sub_language(s2, r1),", "(Complement(r1), Complement(s2)) => sub_language(r1, s2),", 'C16.R1/sub_language/(Complement,Complement)')
-v('c16-self-exclusion', ['C16'], RX, "a.iter().any(|&x| x != r && sub_language(r, x))", "a.iter().any(|&x| sub_language(r, x))", 'C16.R2/is_subsumed')
+v('c16-self-exclusion', ['C16'], RX, "a.iter().any(|&x| x != r && sub_language(r, x))", "a.iter().any(|&x| sub_language(r, x))", 'C16.R2/remove_subsumed')
 v('c16-epsilon', ['C16'], RX, "(Epsilon, _) => s.nullable,", "(Epsilon, _) => true,", 'C16.R1/sub_language/(Epsilon')
 v('c16-inter-rhs-any', ['C16'], RX, "r.expr.concat_or_atomic() && list.iter().all(|&x| sub_language(r, x))", "r.expr.concat_or_atomic() && list.iter().any(|&x| sub_language(r, x))", 'C16.R1/sub_language/')
 v('c16-empty-rhs', ['C16'], RX, "            (_, Empty) => false,", "            (_, Empty) => true,", 'C16.R1/sub_language/')
